@@ -202,6 +202,10 @@ for _p in ("C04", "C06", "C08"):
 REGISTRATION = ["Simulator._add_event", "Simulator._add_event[per-key]", "Simulator._add_event[keys-distinct]", "SequentialRunner._generate_sessions[event]"]
 PROPS["C13"]["tasks"].append("SequentialRunner._generate_sessions[event]")
 PROPS["C14"]["tasks"] += ["FundamentalPriceShock.setup", "OrderMistakeShock.setup"]
+PROPS["C10"]["tasks"] += ["IndexMarket.__init__", "SequentialRunner._generate_markets[create]"]
+PROPS["C17"]["tasks"] += ["IndexMarket.__init__"]
+PROPS["C12"]["tasks"] += ["SequentialRunner._generate_markets[fundamental-parameters]", "SequentialRunner._generate_markets[create]"]
+PROPS["C18"]["tasks"] += ["SequentialRunner._generate_markets[fundamental-parameters]", "SequentialRunner._generate_markets[create]"]
 for _p in ("C07", "C13", "C15", "C16", "C18"):
     PROPS[_p]["tasks"].append("effects:no-shared-mutable-state")
 PROPS["C15"]["tasks"] += ["PriceLimitRule.setup"]
